@@ -41,6 +41,10 @@ pub struct Program {
     /// conflict strategy of the database: none or newer (a stale versioned write is then accepted)
     #[serde(default = "default_strategy")]
     pub strategy: String,
+    /// scenario replicated: a 2-node cluster, the writer works on the primary, the subscribers are sessions
+    /// of the secondary (they hear of replicated writes)
+    #[serde(default)]
+    pub replicated: bool,
 }
 
 fn default_strategy() -> String {
@@ -124,7 +128,42 @@ fn gen(rng: &mut Rng) -> Program {
         }
         subscribers.push(ops);
     }
-    Program { writers, subscribers, strategy }
+    Program { writers, subscribers, strategy, replicated: false }
+}
+
+/// scenario replicated: one writer on the primary (1-6 ops, no bursts), 1-2 subscribers on the secondary that
+/// watch 1-3 keys before the writer starts and stay to the end
+fn gen_replicated(rng: &mut Rng) -> Program {
+    let strategy = if rng.chance(1, 3) { "newer" } else { "none" }.to_string();
+    let mut uniq = 0;
+    let mut last_val: std::collections::BTreeMap<String, String> = std::collections::BTreeMap::new();
+    let n = rng.range(1, 6) as usize;
+    let mut ops = Vec::new();
+    for _ in 0..n {
+        let key = KEYS[rng.below(2) as usize].to_string();
+        uniq += 1;
+        let val = match last_val.get(&key) {
+            Some(v) if rng.chance(1, 5) => v.clone(),
+            _ => format!("w{}", uniq),
+        };
+        last_val.insert(key.clone(), val.clone());
+        ops.push(match rng.below(10) {
+            0..=3 => WOp::Set { key, val },
+            4 | 5 => WOp::SetSafe { key, delta: 0, val },
+            6 => WOp::SetSafe { key, delta: -1, val },
+            7 | 8 => WOp::Inc { by: rng.range(1, 3) as i32 },
+            _ => WOp::Remove { key },
+        });
+    }
+    let ns = rng.range(1, 2) as usize;
+    let mut subscribers = Vec::new();
+    for _ in 0..ns {
+        let mut keys = vec![KEYS[0], KEYS[1], NKEY];
+        rng.shuffle(&mut keys);
+        let k = rng.range(1, 3) as usize;
+        subscribers.push(keys[..k].iter().map(|k| SOp::Watch { key: k.to_string() }).collect());
+    }
+    Program { writers: vec![ops], subscribers, strategy, replicated: true }
 }
 
 #[derive(Clone, Debug)]
@@ -153,21 +192,53 @@ struct Outcome {
     notes: Vec<Vec<String>>,
     finals: Vec<(String, Option<String>)>,
     wire: bool,
+    replicated: bool,
 }
 
 fn execute(prog: Program, wire: bool) -> Outcome {
-    let mut out = Outcome { setup_ok: false, wrecs: vec![], srecs: vec![], notes: vec![], finals: vec![], wire };
-    let w = World::new(1);
-    let (dbs, mut admin) = match single_node_with_db(&w, "d", "tok", &prog.strategy) {
-        Some(x) => x,
-        None => return out,
+    let mut out = Outcome { setup_ok: false, wrecs: vec![], srecs: vec![], notes: vec![], finals: vec![], wire, replicated: false };
+    let replicated = prog.replicated;
+    let w = World::new(if replicated { 2 } else { 1 });
+    let (dbs, mut admin) = if replicated {
+        if w.form_cluster(1_300, 15_000) != Some(0) {
+            return out;
+        }
+        let dbs = match w.dbs(0) {
+            Some(d) => d,
+            None => return out,
+        };
+        let mut admin = Session::admin(&dbs);
+        if admin.exec(&format!("create-db d tok {}", prog.strategy)).resp.is_err() || admin.exec("use-db d tok").resp.is_err() {
+            return out;
+        }
+        (dbs, admin)
+    } else {
+        match single_node_with_db(&w, "d", "tok", &prog.strategy) {
+            Some(x) => x,
+            None => return out,
+        }
     };
     admin.exec("set a i0");
     admin.exec("set b i0");
     if wire && !w.wait_listening(0, 1_000) {
         return out;
     }
+    // where the subscribers live: this node, or the secondary
+    let sub_node = if replicated { 1 } else { 0 };
+    let sub_dbs = if replicated {
+        if !w.settle(300, 8_000) {
+            return out;
+        }
+        match w.dbs(1) {
+            Some(d) => d,
+            None => return out,
+        }
+    } else {
+        dbs.clone()
+    };
     out.setup_ok = true;
+    // replicated: the writer starts when every subscriber has registered its watches
+    let subs_ready = StdArc::new(AtomicU64::new(if replicated { prog.subscribers.len() as u64 } else { 0 }));
     let seq = StdArc::new(AtomicU64::new(1));
     let wrecs: StdArc<StdMutex<Vec<WRec>>> = StdArc::new(StdMutex::new(Vec::new()));
     // subscribers stay until every writer is done (however long the writers are descheduled)
@@ -176,7 +247,9 @@ fn execute(prog: Program, wire: bool) -> Outcome {
     for (wi, ops) in prog.writers.iter().cloned().enumerate() {
         let (dbs, seq, wrecs) = (dbs.clone(), seq.clone(), wrecs.clone());
         let writers_left_w = writers_left.clone();
+        let subs_ready_w = subs_ready.clone();
         whandles.push(spawn_on_node(&w, 0, &format!("writer{}", wi), move || {
+            wait_cond(20_000, 1, || subs_ready_w.load(Ordering::SeqCst) == 0);
             struct Done(StdArc<AtomicU64>);
             impl Drop for Done {
                 fn drop(&mut self) {
@@ -185,6 +258,7 @@ fn execute(prog: Program, wire: bool) -> Outcome {
             }
             let _done = Done(writers_left_w);
             let mut s = Session::new(&dbs);
+            let _ = replicated;
             s.exec("use-db d tok");
             for op in ops {
                 if let WOp::Burst { key, n, val } = &op {
@@ -219,8 +293,10 @@ fn execute(prog: Program, wire: bool) -> Outcome {
     let mut shandles = Vec::new();
     let tcp = w.nodes[0].tcp.clone();
     for (si, ops) in prog.subscribers.iter().cloned().enumerate() {
-        let (dbs, seq, recs, nts, tcp) = (dbs.clone(), seq.clone(), srecs[si].clone(), notes[si].clone(), tcp.clone());
+        let (dbs, seq, recs, nts, tcp) = (sub_dbs.clone(), seq.clone(), srecs[si].clone(), notes[si].clone(), tcp.clone());
         let writers_left_s = writers_left.clone();
+        let subs_ready_s = subs_ready.clone();
+        let w2 = World { nodes: w.nodes.clone() };
         let body = move || {
             if wire {
                 let mut c = match WireClient::connect(&tcp) {
@@ -291,9 +367,16 @@ fn execute(prog: Program, wire: bool) -> Outcome {
                     recs.lock().unwrap().push(SRec { op: op.clone(), invoke, ret });
                     nts.lock().unwrap().append(&mut msgs);
                 }
+                if replicated {
+                    subs_ready_s.fetch_sub(1, Ordering::SeqCst);
+                }
                 // keep the receiver alive until the writers are done
                 wait_cond(20_000, 5, || writers_left_s.load(Ordering::SeqCst) == 0);
                 sleep_ms(50);
+                if replicated {
+                    // ... and everything they wrote has been replicated
+                    w2.settle(300, 8_000);
+                }
                 let mut rest = s.drain();
                 nts.lock().unwrap().append(&mut rest);
             }
@@ -301,7 +384,7 @@ fn execute(prog: Program, wire: bool) -> Outcome {
         if wire {
             shandles.push(spawn_harness(&format!("sub{}", si), body));
         } else {
-            shandles.push(spawn_on_node(&w, 0, &format!("sub{}", si), body));
+            shandles.push(spawn_on_node(&w, sub_node, &format!("sub{}", si), body));
         }
     }
     for h in whandles {
@@ -313,10 +396,18 @@ fn execute(prog: Program, wire: bool) -> Outcome {
     out.wrecs = wrecs.lock().unwrap().clone();
     out.srecs = srecs.iter().map(|r| r.lock().unwrap().clone()).collect();
     out.notes = notes.iter().map(|r| r.lock().unwrap().clone()).collect();
+    let mut reader = if replicated {
+        let mut r = Session::admin(&sub_dbs);
+        r.exec("use-db d tok");
+        r
+    } else {
+        admin
+    };
     for k in [KEYS[0], KEYS[1], NKEY] {
-        let v = parse_value(&admin.exec(&format!("get {}", k)).msgs);
+        let v = parse_value(&reader.exec(&format!("get {}", k)).msgs);
         out.finals.push((k.to_string(), v));
     }
+    out.replicated = replicated;
     out
 }
 
@@ -353,7 +444,13 @@ fn intervals(recs: &[SRec], key: &str) -> Vec<(u64, u64, u64, u64)> {
 fn check(out: &Outcome) -> (Vec<Violation>, bool) {
     let mut viols = Vec::new();
     let mut nontrivial = false;
-    let transport = if out.wire { "wire" } else { "direct" };
+    let transport = if out.replicated {
+        "replicated"
+    } else if out.wire {
+        "wire"
+    } else {
+        "direct"
+    };
     for (si, recs) in out.srecs.iter().enumerate() {
         let notes = &out.notes[si];
         // well-formedness: every `changed k v` is followed by `changed-version k <ver> v`
@@ -539,13 +636,13 @@ impl Property for C03 {
         "C03"
     }
     fn scenarios(&self) -> Vec<(&'static str, u32)> {
-        vec![("direct", 3), ("wire", 1)]
+        vec![("direct", 12), ("wire", 4), ("replicated", 1)]
     }
     fn budget(&self) -> (u64, u64) {
         (300_000, 6_000_000)
     }
     fn rule(&self) -> &'static str {
-        "1-2 writer sessions (1-6 ops of {set,set-safe accepted/refused,increment,remove} on keys a,b and counter n, every written value unique) and 1-2 subscriber sessions (1-6 ops of {watch,unwatch,unwatch-all,disconnect,pause}, never watching one key twice) as concurrent tasks on a node booted by start_db; direct = process_request sessions (every lock a preemption point), wire = subscribers over the real TCP handler incl. its disconnect path. invoke/return stamped with a global sequence number. Non-trivial: some accepted write ran entirely inside a subscription. distinct = distinct (program, task-switch sequence)."
+        "1-2 writer sessions (1-6 ops of {set,set-safe accepted/refused,increment,remove} on keys a,b and counter n, every written value unique) and 1-2 subscriber sessions (1-6 ops of {watch,unwatch,unwatch-all,disconnect,pause}, never watching one key twice) as concurrent tasks on a node booted by start_db; direct = process_request sessions (every lock a preemption point), wire = subscribers over the real TCP handler incl. its disconnect path. invoke/return stamped with a global sequence number. Scenario replicated: a 2-node cluster formed through the real protocol, one writer on the primary, 1-2 subscribers that are sessions of the secondary, watch 1-3 keys before the writer starts and stay until the cluster is quiet -- every accepted write must reach them once, with the committed value, as a replicated write. Non-trivial: some accepted write ran entirely inside a subscription. distinct = distinct (program, task-switch sequence)."
     }
     fn assumptions(&self) -> Vec<String> {
         vec![
@@ -554,7 +651,7 @@ impl Property for C03 {
         ]
     }
     fn components(&self) -> Json {
-        json!({"real": ["process_request watch/unwatch/unwatch-all", "db_ops::unwatch_key/unwatch_all", "bo::Database::watch_key/notify_watchers/remove_value", "tcp_ops::handle_client disconnect path", "Client::left"],
+        json!({"real": ["replication loop, links and rp handling (scenario replicated)", "process_request watch/unwatch/unwatch-all", "db_ops::unwatch_key/unwatch_all", "bo::Database::watch_key/notify_watchers/remove_value", "tcp_ops::handle_client disconnect path", "Client::left"],
                "simulated": ["threads/locks (shuttle)", "TCP"], "stub": []})
     }
     fn run_one(&self, scenario: &str, ctx: &RunCtx) -> RunReport {
@@ -562,9 +659,18 @@ impl Property for C03 {
         let wire = scenario == "wire";
         let prog: Program = match &ctx.program {
             Some(p) => serde_json::from_value(p.clone()).expect("program"),
-            None => gen(&mut rng),
+            None => {
+                if scenario == "replicated" {
+                    gen_replicated(&mut rng)
+                } else {
+                    gen(&mut rng)
+                }
+            }
         };
         let mut cfg = SimConfig::new(ctx.seed ^ 0xc03);
+        if scenario == "replicated" {
+            cfg.max_steps = 6_000_000;
+        }
         cfg.policy = policy_for(Rng::new(ctx.seed ^ 0x9011c7).next_u64());
         cfg.trace = ctx.trace;
         let p2 = prog.clone();
